@@ -80,6 +80,7 @@ type Oracles struct {
 	CrashEvery   int  // crash-point check every k steps (C03); 0 = off
 	Iter         bool // iterator battery (C13) every CmpEvery steps
 	CheckHandles bool // compare the view through every live handle too
+	PopOrder     bool // C13: map PopIterate yields the reverse of the canonical order
 	Isolation    bool // C11: ops on detached containers leave every other tree byte-identical
 	EveryStep    func(e *Engine) error
 	AtCommit     func(e *Engine) error
